@@ -31,7 +31,9 @@ class P(vlib.Prop):
             "randomization_factor > 0, the model is run with the draws that reproduce the logged delays (a delay outside the "
             "envelope makes the case fail); shutdown/cancel triggered from inside attempt k.  Family 3: initial_interval 0 with "
             "Shutdown completed inside attempt 0 (regression stream for the repaired S4, fix 9628cae8b): no attempt may start after "
-            "Shutdown returned and the error must be shutdown-classified; compared exactly.  Kind 1: BackOffConfig.Validate on "
+            "Shutdown returned and the error must be shutdown-classified; compared exactly.  Family 4: groups of 2-6 requests through ONE exporter — one after another, concurrently, and concurrently "
+            "with Shutdown while >= 2 of them wait in back-off, others are mid-attempt, are sent afterwards or finished before; every "
+            "request is its own case (fresh back-off and budget per request, shutdown reaches every request).  Kind 1: BackOffConfig.Validate on "
             "generated configurations vs the translated Coq function.  A case is non-trivial when it has >= 2 attempts or a "
             "non-nil final error (retry) / a rejected configuration (validate); distinct = distinct case terms.")
     trusted_base = [
